@@ -867,6 +867,39 @@ func identityOnly(v ssa.Value, depth int) bool {
 			if b, ok := x.Call.Value.(*ssa.Builtin); !ok || b.Name() != "delete" {
 				return false
 			}
+		case *ssa.Return:
+			// handed back to the callers (every one a direct call): used in the
+			// same way there
+			fn := x.Parent()
+			if curProgram == nil || fn == nil || depth > 2 {
+				return false
+			}
+			sites := staticCallSites(curProgram, fn)
+			if len(sites) == 0 || functionUsedAsValue(curProgram, fn) {
+				return false
+			}
+			for i, res := range x.Results {
+				if res != v {
+					continue
+				}
+				for _, site := range sites {
+					cv, ok := site.(*ssa.Call)
+					if !ok {
+						return false
+					}
+					if len(x.Results) == 1 {
+						if !identityOnly(cv, depth+1) {
+							return false
+						}
+						continue
+					}
+					for _, r2 := range *cv.Referrers() {
+						if ex, ok := r2.(*ssa.Extract); ok && ex.Index == i && len(*ex.Referrers()) > 0 && !identityOnly(ex, depth+1) {
+							return false
+						}
+					}
+				}
+			}
 		case *ssa.Store:
 			fa, ok := x.Addr.(*ssa.FieldAddr)
 			if !ok || x.Val != v {
